@@ -6,6 +6,7 @@ package main
 //
 //   harness <kind> -tier quick|thorough -seed N -shard i/n -cases FILE -res FILE
 //   harness replay -cases FILE -res FILE      (run the given case lines, any kind)
+//   harness <kind> -tier … -seed N -list      (print the generated case lines, run nothing)
 
 import (
 	"bufio"
@@ -185,7 +186,14 @@ func main() {
 	casesPath := fs.String("cases", "", "case file (written, or read for replay)")
 	resPath := fs.String("res", "", "result file (written)")
 	only := fs.String("only", "", "restrict generation to this operator")
+	list := fs.Bool("list", false, "print the generated case lines and exit (nothing is run)")
 	fs.Parse(os.Args[2:])
+	if *list && kind != "replay" {
+		for _, c := range generate(kind, *tier, *seed, *only) {
+			fmt.Println(c.line())
+		}
+		return
+	}
 	var si, sn int
 	fmt.Sscanf(*shard, "%d/%d", &si, &sn)
 	if sn <= 0 {
